@@ -148,6 +148,7 @@ func (pr *Program) runPath(ex *Explorer, s *Solver, fn *ssa.Function, cfg RunCon
 	st.Discharged += p.discharged
 	st.TrivialObl += p.trivial
 	st.Steps += p.steps
+	st.Pruned += int64(p.pruned)
 	if len(p.dec) > st.MaxDepth {
 		st.MaxDepth = len(p.dec)
 	}
